@@ -68,7 +68,15 @@ def main(seed, ncases, driver, out):
         rnd = case_rnd(seed, c); tr = TRANSFORMS[c % len(TRANSFORMS)]; exact = (c % 7 == 3)
         hermitian = rnd.random() < 0.75
         needk = 2 if tr in ("permute-parameters", "merge-parameters") else (1 if tr in ("pad-parameter", "power-substitution") else None)
-        P = problem(rnd, hermitian, needk); k, d, N = P["k"], P["d"], P["N"]
+        P = problem(rnd, hermitian, needk)
+        if tr == "shift":
+            # prefer problems in which a fully diagonalised block holds distinct levels: there the shift must not change what counts as degenerate
+            for _ in range(30):
+                E0 = np.diag(P["terms"][(0,) * P["k"]]).real; sel = list(P["fd"]) if not isinstance(P["fd"], dict) else []
+                if P["N"] == 1 and not isinstance(P["fd"], dict): sel = [0]
+                if any(len(set(E0[a] for a in range(P["d"]) if P["blocks"][a] == b)) >= 2 for b in sel): break
+                P = problem(rnd, hermitian, needk)
+        k, d, N = P["k"], P["d"], P["N"]
         maxn = (3,) if k == 1 else (2, 2)
         if exact: maxn = (2,) if k == 1 else (1, 1)
         Q = copy.deepcopy(P); maxq = maxn; vectors = None; rel = None
@@ -129,7 +137,7 @@ def main(seed, ncases, driver, out):
                 Q["terms"] = {n: m.conj() for n, m in P["terms"].items()}
                 rel = lambda base, name, n: base[(name, n)].conj()
             elif tr == "shift":
-                cshift = rnd.choice([1.0, -2.5, 7.0, 0.125, float(2 ** 17), float(2 ** 18)]); z = (0,) * k      # large shifts: level spacings far below 1e-5 of the level values
+                cshift = rnd.choice([1.0, -2.5, 0.125, float(2 ** 17), float(2 ** 17), float(2 ** 18)]); z = (0,) * k      # large shifts: level spacings far below 1e-5 of the level values
                 Q["terms"] = dict(P["terms"]); Q["terms"][z] = P["terms"][z] + cshift * np.eye(d)
                 if np.abs(np.diag(Q["terms"][z])).max() == 0: Q["terms"][z] = Q["terms"][z] + np.eye(d); cshift += 1
                 rel = lambda base, name, n: base[(name, n)] + (cshift * np.eye(d) if name == "H_tilde" and not any(n) else 0)
